@@ -126,6 +126,17 @@ func crashDriver(args []string) error {
 		return crashRun(args[1:])
 	case "probe":
 		return crashProbe(args[1:])
+	case "open": // crash open <db name> <memKB>: start the engine on the files as they are (debug aid)
+		memKB, _ := strconv.Atoi(args[2])
+		e, pm := eng.Open(args[1], memKB, true)
+		if e == nil {
+			fmt.Println("open: panic:", pm)
+			return nil
+		}
+		r := e.Exec("SELECT k, v FROM " + crashTable + ";")
+		fmt.Println("open: ok; select:", r.Res, len(r.Rows), "rows")
+		e.Crash()
+		return nil
 	}
 	return fmt.Errorf("crash run|probe")
 }
@@ -275,6 +286,72 @@ func crashRun(args []string) error {
 			tw.Close()
 			return false
 		}
+	}
+	if os.Getenv("VERIF_CRASH_MODE") == "wide" {
+		// a heap several times the pool, filled by committed transactions (not probed), then ONE transaction whose
+		// statement marks rows on every page - so that its undo (at abort, or by recovery when the crash finds it
+		// unfinished) and its commit (one APPLYDELETE per row) run over more pages than the pool holds
+		for i := 0; i < 36; i++ {
+			t := begin()
+			for j := 0; j < 4; j++ {
+				k := nextKey
+				nextKey++
+				version++
+				res, _ := e.ExecTxn(t.txn, fmt.Sprintf("INSERT INTO %s(k, v, p) VALUES (%d, %d, '%s');", crashTable, k, version, longPay[:850+rng.Intn(50)]))
+				if res.Res != "ok" {
+					return fmt.Errorf("wide prefill: %s", res.Res)
+				}
+				tw.Emit(map[string]interface{}{"ev": "Write", "t": t.name, "op": "ins", "k": k, "v": version})
+				liveKeys[k] = true
+			}
+			commit(t)
+		}
+		tw.Emit(map[string]interface{}{"ev": "ProbeFrom", "io0": rec.Len()})
+		lo := rng.Intn(20)
+		hi := nextKey - rng.Intn(20)
+		t := begin()
+		res, _ := e.ExecTxn(t.txn, fmt.Sprintf("DELETE FROM %s WHERE k >= %d AND k < %d;", crashTable, lo, hi))
+		if res.Res != "ok" {
+			return fmt.Errorf("wide delete: %s", res.Res)
+		}
+		for k := lo; k < hi; k++ {
+			tw.Emit(map[string]interface{}{"ev": "Write", "t": t.name, "op": "del", "k": k, "v": -1})
+			delete(liveKeys, k)
+		}
+		// a few small transactions while the wide one is open (they evict its pages and move the log on)
+		for i := 0; i < 3; i++ {
+			t2 := begin()
+			forceKind = 0
+			if stmt(t2) {
+				commit(t2)
+			}
+			forceKind = -1
+		}
+		switch rng.Intn(3) {
+		case 0:
+			abort(t, "explicit")
+		case 1:
+			commit(t)
+		default: // still open at the end: every later crash point finds it unfinished
+		}
+		for i := 0; i < 2; i++ {
+			t2 := begin()
+			forceKind = 0
+			if stmt(t2) {
+				commit(t2)
+			}
+			forceKind = -1
+		}
+		tw.Emit(map[string]interface{}{"ev": "End", "ios": rec.Len()})
+		if err := tw.Close(); err != nil {
+			return err
+		}
+		f, err := os.Create(opsPath)
+		if err != nil {
+			return err
+		}
+		defer f.Close()
+		return gob.NewEncoder(f).Encode(rec.Snapshot())
 	}
 	steps := 14 + rng.Intn(14)
 	if v, err := strconv.Atoi(os.Getenv("VERIF_CRASH_STEPS")); err == nil && v > 0 {
@@ -460,6 +537,55 @@ func (p *prober) probe(im *image, depth int, label map[string]interface{}) map[s
 	}
 	wd.Stop()
 	e.Crash()
+	if depth == 0 && out["restart"] == "ok" && out["accepts"] == true {
+		// the run that just ended committed one more row and crashed: start once more on what it left behind -
+		// the tables must be the same (recovery repeated) and the row committed in between must be there
+		again := map[string]interface{}{"restart": "ok", "rows": [][]int{}, "probe": false}
+		wd2 := time.AfterFunc(30*time.Second, func() {
+			again["restart"] = "hang"
+			out["again"] = again
+			ev := map[string]interface{}{"ev": "Probe", "probe": out}
+			for k, v := range label {
+				ev[k] = v
+			}
+			p.tw.Emit(ev)
+			p.tw.Flush()
+			os.Exit(3)
+		})
+		p.nprobe++
+		e2, pm2 := eng.Open(name, p.memKB, true)
+		if e2 == nil {
+			again["restart"] = "panic:" + pm2
+		} else {
+			r := e2.Exec("SELECT k, v FROM " + crashTable + ";")
+			if r.Res != "ok" {
+				again["restart"] = "read:" + r.Res
+			} else {
+				rows := [][]int{}
+				for _, row := range r.Rows {
+					if len(row) == 2 && !row[0].IsNull() && !row[1].IsNull() {
+						if row[0].ToInteger() == 999999 {
+							again["probe"] = true
+							continue
+						}
+						rows = append(rows, []int{int(row[0].ToInteger()), int(row[1].ToInteger())})
+					} else {
+						rows = append(rows, []int{-99, -99})
+					}
+				}
+				sort.Slice(rows, func(i, j int) bool {
+					if rows[i][0] != rows[j][0] {
+						return rows[i][0] < rows[j][0]
+					}
+					return rows[i][1] < rows[j][1]
+				})
+				again["rows"] = rows
+			}
+			e2.Crash()
+		}
+		wd2.Stop()
+		out["again"] = again
+	}
 	if depth > 0 && len(recov) > 0 {
 		nested := []interface{}{}
 		cur := im.clone()
@@ -467,6 +593,10 @@ func (p *prober) probe(im *image, depth int, label map[string]interface{}) map[s
 			// crash inside the recovery run, after its first j I/O calls (j = 0 is the image itself: recovery repeated)
 			n := p.probe(cur.clone(), depth-1, label)
 			n["after"] = j
+			n["afterKind"] = ""
+			if j > 0 {
+				n["afterKind"] = recov[j-1].Kind // the recovery run's last completed I/O call before this crash
+			}
 			nested = append(nested, n)
 			cur.apply(recov[j])
 		}
@@ -539,6 +669,10 @@ func crashProbe(args []string) error {
 				seen[c] = true
 				ti := im.clone()
 				ti.log = append(ti.log, data[:c]...)
+				if os.Getenv("VERIF_DUMP_TORN") == fmt.Sprintf("%d:%d", k, c) {
+					ti.write(filepath.Join(dir, "dump"))
+					os.Exit(0)
+				}
 				t := p.probe(ti, 0, map[string]interface{}{"io": k, "cut": c})
 				t["cut"] = c
 				tv = append(tv, t)
